@@ -132,6 +132,9 @@ bool FeatureChecker::isRateDisallowedInSymbolic(const expression_t& e)
             return false;
         }
 
+        // the rate of something that is not a variable (reported by the type checker) restricts nothing
+        if (clock.get(0).get_symbol() == symbol_t())
+            return false;
         // rates over hybrid clocks are allowed, because they are ignored/abstracted in symbolic analysis
         if (clock.get(0).get_symbol().get_type().is(Constants::HYBRID))
             return false;
